@@ -104,9 +104,23 @@ Proof. unfold pass_weights. apply filter_ssorted. apply zsort_uniq_sorted. Qed.
 
 Lemma pass_weights_in hooks m pred s w :
   In w (pass_weights hooks m pred s) <->
-  pred w = true /\ (In w (trig_weights hooks m) \/ In w (pend_weights m (e_pend s))).
+  pred w = true /\ (In w (trig_weights hooks m) \/ In w (await_weights hooks m) \/
+                    In w (pend_weights m (e_pend s))).
 Proof.
-  unfold pass_weights. rewrite filter_In, zsort_uniq_in, in_app_iff. tauto.
+  unfold pass_weights. rewrite filter_In, zsort_uniq_in, !in_app_iff. tauto.
+Qed.
+
+Lemma await_weights_in hooks m w :
+  In w (await_weights hooks m) <->
+  exists h, In h hooks /\ is_call h = true /\ fst (h_trig h) = m /\ h_await h = (m, w).
+Proof.
+  unfold await_weights. rewrite in_map_iff. split.
+  - intros [h [Hw Hh]]. apply filter_In in Hh. destruct Hh as [Hh Hc].
+    apply andb_true_iff in Hc. destruct Hc as [Hc Ha]. apply andb_true_iff in Hc. destruct Hc as [Hc Ht].
+    apply mname_eqb_spec in Ha, Ht. exists h. repeat split; auto.
+    destruct (h_await h) as [a b]. cbn in *. subst. reflexivity.
+  - intros [h (Hh & Hc & Ht & Ha)]. exists h. rewrite Ha. cbn. split; [reflexivity|].
+    apply filter_In. split; [exact Hh|]. rewrite Hc, Ht, Ha. cbn. rewrite !mname_eqb_refl. reflexivity.
 Qed.
 
 Lemma trig_weights_in hooks m w :
@@ -198,19 +212,15 @@ Proof.
   fold (dw_t1 hooks orc m w s). fold (dw_t2 hooks orc m w s). fold (dw_tasks hooks m w).
   set (t3 := match dw_tasks hooks m w with
              | [] => []
-             | _ :: _ => match e_stale s with [] => [] | _ :: _ => [TUnsure (m, w)] end ++
-                         [TTasks (dw_tasks hooks m w) (m, w)]
+             | _ :: _ => [TTasks (dw_tasks hooks m w) (m, w)]
              end).
   assert (H3 : Forall (phase3_ev (m, w)) t3).
-  { unfold t3. destruct (dw_tasks hooks m w); [constructor|].
-    destruct (e_stale s); cbn; repeat constructor. }
-  set (s2 := if match dw_tasks hooks m w with [] => false | _ :: _ => trig_fails (dw_tasks hooks m w) (or_touts orc) end
-             then add_stale (dw_tasks hooks m w) (set_pend (dw_pend2 hooks orc m w s) s)
-             else set_pend (dw_pend2 hooks orc m w s) s).
+  { unfold t3. destruct (dw_tasks hooks m w); [constructor|]. cbn; repeat constructor. }
+  set (s2 := set_pend (dw_pend2 hooks orc m w s) s).
   assert (Hs2 : e_pend s2 = dw_pend2 hooks orc m w s /\ e_st s2 = e_st s /\ e_rv s2 = e_rv s /\
                 e_clock s2 = e_clock s /\ e_ctr s2 = e_ctr s).
-  { unfold s2. destruct (match dw_tasks hooks m w with [] => false | _ :: _ => _ end); cbn; auto. }
-  destruct (run_tasks (e_stale s) (steal_of orc) (dw_tasks hooks m w) (or_touts orc)) as [errs|].
+  { unfold s2. cbn; auto. }
+  destruct (run_tasks (dw_tasks hooks m w) (or_touts orc)) as [errs|].
   - destruct (filter (fun i => i_fail i && i_crit i) (dw_coll hooks orc m w s)) eqn:Ec;
       [destruct (filter (crit_of hooks) (filter (fun h => memN h errs) (dw_tasks hooks m w))) eqn:Et|];
       intro H; inversion H; subst; clear H;
@@ -232,7 +242,7 @@ Lemma do_weight_fail hooks orc m w s s' t f c :
 Proof.
   unfold do_weight. fold (dw_calls hooks m w). fold (dw_pend1 hooks orc m w s).
   fold (dw_coll hooks orc m w s). fold (dw_tasks hooks m w).
-  destruct (run_tasks (e_stale s) (steal_of orc) (dw_tasks hooks m w) (or_touts orc)) as [errs|].
+  destruct (run_tasks (dw_tasks hooks m w) (or_touts orc)) as [errs|].
   - destruct (filter (fun i => i_fail i && i_crit i) (dw_coll hooks orc m w s)) eqn:Ec;
       [destruct (filter (crit_of hooks) (filter (fun h => memN h errs) (dw_tasks hooks m w))) eqn:Et|];
       intros H _; inversion H; subst; clear H; cbn.
@@ -1507,50 +1517,23 @@ Proof.
     + right. exists h, snap. split; [apply in_or_app; right; exact Hs|auto].
 Qed.
 
-(* C08, await clause (holds under the side condition): when handleHooks has gone through the
-   weights of moment [m] selected by [pred] without a critical failure, the only calls still
-   pending at a point of that pass are calls that were started after that point had been passed *)
+(* C08, await clause: when handleHooks has gone through the weights of moment [m] selected by
+   [pred] without a critical failure, the only calls still pending at a point of that pass are
+   calls that were started after that point had been passed *)
 Lemma run_pass_await hooks orc m pred s s' t :
   run_pass hooks orc m pred s = (s', t, POk) ->
-  (forall h, In h hooks -> is_call h = true -> fst (h_trig h) = m -> fst (h_await h) = m ->
-     pred (snd (h_trig h)) = true -> pred (snd (h_await h)) = true ->
-     (snd (h_trig h) < snd (h_await h))%Z -> exists h', In h' hooks /\ h_trig h' = h_await h) ->
   forall w i, In ((m, w), i) (e_pend s') -> pred w = true ->
     exists h snap, In (TStart i h snap) t /\ h_await h = (m, w) /\ (w < snd (h_trig h))%Z.
 Proof.
-  unfold run_pass. intros H Hside w i Hin Hp.
+  unfold run_pass. intros H w i Hin Hp.
   assert (Hcl : await_closed hooks m pred (pass_weights hooks m pred s)).
-  { intros h Hh Hc Hm Hw Ha Hpa Hlt. apply pass_weights_in in Hw. destruct Hw as [Hpt _].
-    destruct (Hside h Hh Hc Hm Ha Hpt Hpa Hlt) as (h' & Hh' & Ht').
-    apply pass_weights_in. split; [exact Hpa|]. left. apply trig_weights_in.
-    exists h'. split; [exact Hh'|]. rewrite Ht'. destruct (h_await h) as [am aw]. cbn in *. subst. reflexivity. }
+  { intros h Hh Hc Hm Hw Ha Hpa Hlt.
+    apply pass_weights_in. split; [exact Hpa|]. right. left. apply await_weights_in.
+    exists h. repeat split; auto. destruct (h_await h) as [am aw]. cbn in *. subst. reflexivity. }
   destruct (pass_loop_await _ _ _ _ _ (pass_weights_sorted hooks m pred s) Hcl _ _ _ H w i Hin Hp)
     as [[Hold Hnw]|R]; [|exact R].
-  exfalso. apply Hnw. apply pass_weights_in. split; [exact Hp|]. right.
+  exfalso. apply Hnw. apply pass_weights_in. split; [exact Hp|]. right. right.
   apply pend_weights_in. exists i. exact Hold.
-Qed.
-
-(* the statement without the side condition is false: the weight list is fixed on entry *)
-Definition await_statement : Prop :=
-  forall hooks orc m pred s s' t,
-    run_pass hooks orc m pred s = (s', t, POk) ->
-    forall w i, In ((m, w), i) (e_pend s') -> pred w = true ->
-      exists h snap, In (TStart i h snap) t /\ (w < snd (h_trig h))%Z.
-
-Definition wit_await_hooks : list hook :=
-  [mkHook 1 HCall (MBefore CONFIGURE, 1%Z) (MBefore CONFIGURE, 5%Z) true].
-Definition wit_await_orc : oracle := mkOracle 0 [] [] [].
-
-Lemma await_statement_refuted : ~ await_statement.
-Proof.
-  intro H.
-  specialize (H wit_await_hooks wit_await_orc (MBefore CONFIGURE) wnonneg (est0 DEPLOYED)).
-  destruct (run_pass wit_await_hooks wit_await_orc (MBefore CONFIGURE) wnonneg (est0 DEPLOYED))
-    as [[s' t] p] eqn:E.
-  vm_compute in E. inversion E; subst. clear E.
-  destruct (H _ _ eq_refl 5%Z (mkInst 1 0 false true)) as (h & snap & Hin & Hlt);
-    [left; reflexivity|reflexivity|].
-  cbn in Hin. repeat (destruct Hin as [Heq|Hin]; [inversion Heq; subst; cbn in Hlt; lia|]). exact Hin.
 Qed.
 
 (* ------------------------------------------------------------------ ParseTriggerExpression *)
